@@ -47,10 +47,13 @@ def gen(name, cfg, out_path, num, seed, timeout):
         raise vlib.Inconclusive("Gen %s: %s violated on the specification during simulation (see %s)" % (cfg, r.violated, r.stdout_path))
     if (r.error and not r.timed_out) or (r.rc != 0 and not r.timed_out):
         raise vlib.Inconclusive("Gen %s: TLC failed: %s (see %s)" % (cfg, r.error, r.stdout_path))
+    # Emit is evaluated on every candidate successor of the last step, so one simulated trace prints
+    # several lines that differ in the last element only: keep one line per trace.
     seen, n = set(), 0
     with open(raw) as f, open(out_path, "w") as o:
         for line in f:
-            h = hashlib.sha1(line.encode()).digest()
+            cut = line.rfind('{"e":')
+            h = hashlib.sha1(line[:cut].encode()).digest()
             if h in seen:
                 continue
             seen.add(h)
@@ -102,17 +105,26 @@ def run(tier, v):
     seed = vlib.seed()
     known_open = [f for f in vlib.known_findings(PID) if f["key"] == "F5"]
 
-    # 1. the design: exhaustive model checking (several focused configurations, in parallel)
-    cfgs = QUICK_MC + (THOROUGH_MC if thorough else [])
+    # 1. the design: exhaustive model checking (several focused configurations, in parallel);
+    #    at the same time TLC simulates the network schedules for step 2
+    cfgs = (list(reversed(THOROUGH_MC)) if thorough else []) + QUICK_MC      # longest first
     if os.environ.get("C19_SKIP_MC") and vlib.REPO != "/repo":
-        cfgs = cfgs[:1]      # mutation self-tests of the Go code: the model is unchanged
+        cfgs = cfgs[-4:-3]      # mutation self-tests of the Go code: the model is unchanged
+    plan = [("g3", "Gen_Gossip.cfg", 3000 if thorough else 40), ("g2", "Gen_Gossip_2.cfg", 1000 if thorough else 18),
+            ("g4", "Gen_Gossip_4.cfg", 1000 if thorough else 18)]
     def mc(c):
         cfg, to = c
-        return cfg, vlib.tlc(PID, "mc_" + cfg[:-4], "MC_Gossip", cfg, workers=4, timeout=to, coverage=(cfg == "MC_Gossip.cfg"))
-    with concurrent.futures.ThreadPoolExecutor(max_workers=4) as ex:
+        return cfg, vlib.tlc(PID, "mc_" + cfg[:-4], "MC_Gossip", cfg, workers=4, timeout=to)
+    def dogen(p):
+        name, cfg, num = p
+        gp = os.path.join(wd, "gen_%s.jsonl" % name)
+        return gen("gen_" + name, cfg, gp, num, seed, 2400 if thorough else 300), gp
+    with concurrent.futures.ThreadPoolExecutor(max_workers=3) as ex, concurrent.futures.ThreadPoolExecutor(max_workers=3) as gx:
+        gens_f = [gx.submit(dogen, p) for p in plan]
         strict_f = ex.submit(vlib.tlc, PID, "mc_strict", "MC_Gossip", "MC_Gossip_strict.cfg", 2, 300)
         mcs = list(ex.map(mc, cfgs))
         strict = strict_f.result()
+        gens = [f.result() for f in gens_f]
     states = transitions = 0
     for cfg, r in mcs:
         vlib.tlc_must_pass(r, cfg)
@@ -124,19 +136,15 @@ def run(tier, v):
         raise vlib.Inconclusive("MC_Gossip_strict: the implementation layer of Gossip.tla no longer exhibits F5 (%s, %s)" % (strict.violated, strict.error))
     log("  MC_Gossip_strict (no F5 excuse): %s" % ("BadInputHarmlessStrict violated, as expected while F5 is open" if f5_in_model else "holds"))
 
-    # 2. bind: network schedules from TLC executed on the real mesh
+    # 2. bind: the network schedules executed on the real mesh
     binp = vlib.go_build_test(PID, "c19")
-    plan = [("g3", "Gen_Gossip.cfg", 1200 if thorough else 18), ("g2", "Gen_Gossip_2.cfg", 400 if thorough else 7),
-            ("g4", "Gen_Gossip_4.cfg", 400 if thorough else 7)]
-    def do(p):
-        name, cfg, num = p
-        gp = os.path.join(wd, "gen_%s.jsonl" % name)
-        g = gen("gen_" + name, cfg, gp, num, seed, 2400 if thorough else 300)
+    def do(x):
+        (name, cfg, num), (g, gp) = x
         out = os.path.join(wd, "replay_%s.json" % name)
         rc, txt = run_replay(binp, gp, out)
         return name, cfg, g, gp, out, rc, txt
     with concurrent.futures.ThreadPoolExecutor(max_workers=3) as ex:
-        runs = list(ex.map(do, plan))
+        runs = list(ex.map(do, zip(plan, gens)))
     results, drift, total = [], 0, 0
     for name, cfg, g, gp, out, rc, txt in runs:
         if rc != 0:
@@ -149,7 +157,7 @@ def run(tier, v):
         r = vlib.load_result(out)
         log("  %s: %d schedules, %d steps, %d disagreements, F5 reproduced %d times" % (
             cfg, r["cases"], r["steps"], r["n_mismatches"], r["counters"].get("F5", 0)))
-        if g.behaviours < (1000 if thorough else 25):
+        if g.behaviours < (2000 if thorough else 40):
             raise vlib.Inconclusive("Gen %s produced only %d schedules" % (cfg, g.behaviours))
         drift += judge(v, r, wd, name, known_open)
         results.append(r)
@@ -171,6 +179,31 @@ def run(tier, v):
                        "%d schedules stopped there because the specification's implementation layer still has the defect)" %
                        (PID, counters.get("injectfull", 0), counters.get("F5_not_reproduced", 0)))
     nontrivial = sum(r["nontrivial"] for r in results)
+
+    # 3. thorough only, advisory: real memberlist clusters on loopback (cluster.Create, Peer.AddState, Peer.Join)
+    loopback = []
+    if thorough:
+        for n in (2, 3, 4):
+            out = os.path.join(wd, "loopback_%d.json" % n)
+            try:
+                rc, txt = vlib.go_run_test(binp, "TestLoopback$", ["-n", str(n), "-depth", "30", "-out", out], timeout=200)
+            except vlib.Inconclusive as e:
+                loopback.append("%d peers: %s" % (n, e))
+                continue
+            if rc != 0 and ("panic:" in txt or "fatal error:" in txt):
+                tp = os.path.join(wd, "loopback_panic_%d.txt" % n)
+                open(tp, "w").write(txt)
+                v.violation("panic in a real memberlist cluster of %d peers on loopback:\n%s" % (n, txt[-1500:]), [tp])
+                continue
+            if rc != 0 or not os.path.exists(out):
+                loopback.append("%d peers: did not run (%s)" % (n, txt[-200:].strip()))
+                continue
+            lr = vlib.load_result(out)
+            for m in lr["mismatches"]:
+                v.violation("loopback cluster of %d peers: %s: %s" % (n, m["what"], m.get("got")), [out])
+            loopback.append("%d peers: %s" % (n, "converged (small and oversized silences and log entries on every peer)"
+                                              if lr["counters"].get("converged") else "; ".join(lr.get("notes") or ["no result"])))
+        log("  loopback (advisory): " + " | ".join(loopback))
     samples = []
     for r in results:
         if r["samples"]:
@@ -190,12 +223,13 @@ def run(tier, v):
                 "merges something new",
         "counters": counters,
         "drift": drift,
+        "loopback_advisory": loopback,
         "samples": samples,
         "bounds": "MC: 2 nodes x {small, oversized} updates with loss+duplication; 2 nodes with every injected byte-string class "
                   "(full states of up to 3 parts); 3 nodes with crash, stale membership, burst on a full oversize queue (cap 1); "
                   "liveness 2 nodes; thorough adds 3 nodes x two near-limit gossip messages and 3-node join orders. "
-                  "Gen: 2/3/4 nodes, 11 updates with marshalled part sizes 700/701/708/709 around the limit, oversize queue "
-                  "capacity 200 (bursts of 199..205), <=4 lost and <=3 duplicated packets, <=2 crashes, <=5 injections per schedule",
+                  "Gen: %d distinct simulated schedules of 60 steps, 2/3/4 nodes, 11 updates with marshalled part sizes 700/701/708/709 around the limit, oversize queue "
+                  "capacity 200 (bursts of 199..205), <=4 lost and <=3 duplicated packets, <=2 crashes, <=5 injections per schedule" % total,
     }
     return "model_checking", cov, [
         "memberlist itself (failure detection, UDP/TCP, its use of Delegate: GetBroadcasts(3, 1398) per gossip target, NotifyMsg for "
